@@ -296,21 +296,39 @@ int EvalExpression::parse_unary_new(AsmContext *asm_context, Var &answer)
     answer.set_float(token);
   }
     else
-  if (IS_TOKEN(token, '('))
+  if (IS_TOKEN(token, '(') || IS_TOKEN(token, '~') || IS_TOKEN(token, '-'))
   {
-    if (run(asm_context, answer, true) != 0) { return -1; }
-  }
-    else
-  if (IS_TOKEN(token, '~'))
-  {
-    if (parse_unary_new(asm_context, answer) != 0) { return -1; }
-    answer.complement();
-  }
-    else
-  if (IS_TOKEN(token, '-'))
-  {
-    if (parse_unary_new(asm_context, answer) != 0) { return -1; }
-    answer.negative();
+    // Every unary operator and every '(' behind one is a recursive call.
+    static int unary_depth = 0;
+    int ret;
+
+    if (unary_depth >= 128)
+    {
+      print_error(asm_context, "Expression nested too deeply");
+      return -1;
+    }
+
+    unary_depth++;
+
+    if (IS_TOKEN(token, '('))
+    {
+      ret = run(asm_context, answer, true);
+    }
+      else
+    if (IS_TOKEN(token, '~'))
+    {
+      ret = parse_unary_new(asm_context, answer);
+      if (ret == 0) { answer.complement(); }
+    }
+      else
+    {
+      ret = parse_unary_new(asm_context, answer);
+      if (ret == 0) { answer.negative(); }
+    }
+
+    unary_depth--;
+
+    if (ret != 0) { return -1; }
   }
     else
   {
